@@ -424,12 +424,54 @@ fn case(srv: &mut Srv, seed: u64, res: &mut CaseResult) -> R<()> {
             res.find(&["C06", "C18"], "generator-output/outside-the-spawn-context", json!({"frame": f}));
         }
     }
+    // (7) the same script deployed as a command in two contexts (byte-identical definitions), called before and
+    // after a restart of the server: each sees its own context only
+    let n_handler_reports = outs.len();
+    {
+        const SAME: &str = "{run: {|frame| [{cat: (.cat | each {|f| $f.meta?.ctx? | default \"none\"} | uniq), head: (.head t | get meta?.ctx? | default \"none\")}] | each {|x| $x}}}";
+        srv.must_append("samea.define", a, Some(SAME.as_bytes()), None, None)?;
+        srv.must_append("sameb.define", b, Some(SAME.as_bytes()), None, None)?;
+        srv.settle(Duration::from_millis(150), Duration::from_secs(5))?;
+        for round in 0..2 {
+            if round == 1 {
+                srv.restart(rng.chance(500))?;
+                srv.settle(Duration::from_millis(400), Duration::from_secs(10))?;
+            }
+            for (name, c, own) in [("samea", a, "A"), ("sameb", b, "B")] {
+                let call = srv.must_append(&format!("{}.call", name), c, None, Some(json!({"ctx": own})), None)?;
+                let cid = call.id.to_string();
+                let done = srv.wait(Duration::from_secs(30), |log| log.iter().any(|f| (f.topic == format!("{}.complete", name) || f.topic == format!("{}.error", name)) && meta_str(f, "frame_id") == Some(&cid)))?;
+                if !done {
+                    res.inconclusive = Some(format!("command {} did not answer within 30 s (round {})", name, round));
+                    return Ok(());
+                }
+                let recv: Option<Frame> = srv.era_log().iter().find(|f| f.topic == format!("{}.recv", name) && meta_str(f, "frame_id") == Some(&cid)).cloned();
+                if let Some(r) = recv {
+                    let cnt = srv.content_str(&r)?;
+                    let v: Value = cnt.as_deref().and_then(|s| serde_json::from_str(s).ok()).unwrap_or(Value::Null);
+                    let tags: Vec<String> = v["cat"].as_array().cloned().unwrap_or_default().iter().filter_map(|x| x.as_str().map(|s| s.to_string())).collect();
+                    observations += tags.len() as u64 + 1;
+                    res.count("same_script_commands_checked", 1);
+                    let foreign = tags.iter().find(|t| t.as_str() != own && t.as_str() != "none" && !t.starts_with("from-"));
+                    let head = v["head"].as_str().unwrap_or("none");
+                    if foreign.is_some() || (head != own && head != "none") || !tags.iter().any(|t| t == own) {
+                        res.find(&["C06"], if round == 1 { "command-script/same-script-in-two-contexts-reads-the-other-context-after-restart" } else { "command-script/same-script-in-two-contexts-reads-the-other-context" }, json!({"command": name, "context": own, "cat_tags": tags, "head": head}));
+                    }
+                    if r.context_id != c {
+                        res.find(&["C06", "C19"], "command-output/outside-the-callers-context", json!({"frame": r}));
+                    }
+                } else {
+                    res.find(&["C06", "C19"], "command-script/same-script-command-did-not-answer", json!({"command": name, "round": round}));
+                }
+            }
+        }
+    }
     res.count("scoped_observations_checked", observations);
-    res.count("handler_script_reports", outs.len() as u64);
-    res.nontrivial = observations > 50 && outs.len() >= 2;
+    res.count("handler_script_reports", n_handler_reports as u64);
+    res.nontrivial = observations > 50 && n_handler_reports >= 2;
     res.hash = fnv(&format!("{}-{}", seed, n));
     if res.sample.is_none() {
-        res.sample = Some(json!({"contexts": ctxs.iter().map(|(c, l)| json!([l, c.to_string()])).collect::<Vec<_>>(), "follower_options": followers.iter().map(|f| f.2.clone()).collect::<Vec<_>>(), "handler_reports": outs.len(), "observations": observations}));
+        res.sample = Some(json!({"contexts": ctxs.iter().map(|(c, l)| json!([l, c.to_string()])).collect::<Vec<_>>(), "follower_options": followers.iter().map(|f| f.2.clone()).collect::<Vec<_>>(), "handler_reports": n_handler_reports, "observations": observations}));
     }
     Ok(())
 }
